@@ -46,5 +46,5 @@ def nontrivial(case, model_obs):
 
 
 signature = qc.signature
-PARTS = [{"name": "seq_queue", "harness": "seq_queue.cpp", "gen": gen_seq, "timeout_case": 20},
-         {"name": "ctl_queue", "harness": "ctl_queue.cpp", "gen": gen_ctl, "timeout_case": 10}]
+PARTS = [{"name": "seq_queue", "harness": "seq_queue.cpp", "gen": gen_seq, "timeout_case": 6},
+         {"name": "ctl_queue", "harness": "ctl_queue.cpp", "gen": gen_ctl, "timeout_case": 5}]
